@@ -269,14 +269,16 @@ PRep(body, ts, st, n) == IF n = 0 \/ ~st.ok THEN st ELSE PRep(body, ts, PSeq(bod
 Parse(ver, ts) == PSeq(Grammar(ver), ts, [ok |-> TRUE, pos |-> 1, env |-> Env0])
 
 ShapeVar(sh, v) == sh[v]
-ParseInverse(sh) ==
-    LET ts == Tokens(sh)  r == Parse(sh.ver, ts)
+\* ts = Tokens(sh) (passed in so that a model computes it once)
+ParseInverseT(sh, ts) ==
+    LET r == Parse(sh.ver, ts)
     IN  /\ r.ok /\ r.pos = Len(ts) + 1
         /\ \A v \in WireVars(sh.ver) : r.env[v] = ShapeVar(sh, v)
         \* a shorter stream is never a complete parse (no token can be dropped at the end)
         /\ Len(ts) > 0 => ~Parse(sh.ver, SubSeq(ts, 1, Len(ts) - 1)).ok
         \* variables the version does not carry are zero in a well-formed shape
         /\ \A v \in AllVars \ WireVars(sh.ver) : sh[v] = 0
+ParseInverse(sh) == ParseInverseT(sh, Tokens(sh))
 
 IsPrefix(a, b) == Len(a) <= Len(b) /\ SubSeq(b, 1, Len(a)) = a
 \* wire-visible part of a shape (the branch is not on the wire before v5)
@@ -284,7 +286,11 @@ Wire(sh) == [v \in WireVars(sh.ver) \cup { "ver", "branch" } |->
                 IF v = "branch" THEN (IF CommitsBranch(sh.ver) THEN sh.branch ELSE "-") ELSE sh[v]]
 PrefixFree(s, t) == (s.ver = t.ver /\ Wire(s) # Wire(t)) => ~IsPrefix(Tokens(s), Tokens(t))
 
-LengthLaw(sh) == TotalLen(sh) = SumLen(Tokens(sh), 1) /\ TotalLen(sh) >= 4
+\* the total length is the sum of the token lengths: at least the header word, and every count
+\* contributes the length of its shortest CompactSize class
+LengthLawT(sh, ts) == /\ SumLen(ts, 1) >= 4
+                      /\ \A j \in DOMAIN ts : ts[j].k = "c" => Len(ts[j].enc) = CS!EncLen(CS!FromNat(ts[j].v))
+LengthLaw(sh) == LengthLawT(sh, Tokens(sh))
 
 -----------------------------------------------------------------------------------------
 \* TxVersion header table: (header word, following group id word) -> version / rejection.
